@@ -242,8 +242,109 @@ func ssaEventText(lines [][]ssaRunGT, nl func() string) string {
 
 // returns the document and, per section, the columns that were included (the others are not observable)
 func renderSsa(r *rng, d *ssaDocGT) (string, map[string]bool, map[string]bool) {
+	doc, sc, ec, _ := renderSsaWith(r, d, nil)
+	return doc, sc, ec
+}
+
+// ssaExtras: lines the format tolerates beyond the plain rendering - unknown script-info keys, comment lines in the
+// styles / events sections and before the first section header, unintelligible and "key: value" lines before the
+// first header, a second Format line inside a section.  Every choice is drawn from the private generator x (derived
+// from the run seed and the case index), so the main generator is consumed exactly as without extras.
+type ssaExtras struct {
+	R *runner
+	x *rng
+}
+
+func newSsaExtras(R *runner, c int, salt uint64) *ssaExtras {
+	return &ssaExtras{R: R, x: newRng(R.seed*1000003 + uint64(c)*16 + salt)}
+}
+
+func (ex *ssaExtras) count(what string) { ex.R.count("ssa.render." + what) }
+
+// a second Format line for a section whose columns in force are old (keepLast: the last column stays last): the new
+// line's column list and the columns in force after it (the reader overwrites entries 0..k-1 and keeps the rest)
+func (ex *ssaExtras) format2(old []string, keepLast bool, section string) (line []string, inForce []string) {
+	n := len(old)
+	movable := n
+	if keepLast {
+		movable = n - 1
+	}
+	perm := func(l []string) []string {
+		o := append([]string{}, l...)
+		for i := len(o) - 1; i > 0; i-- {
+			j := ex.x.intn(i + 1)
+			o[i], o[j] = o[j], o[i]
+		}
+		return o
+	}
+	kind := ex.x.pick("permuted", "shorter", "longer")
+	if kind == "shorter" && n < 2 {
+		kind = "permuted"
+	}
+	switch kind {
+	case "shorter":
+		k := 1 + ex.x.intn(n-1) // 1..n-1 columns: the last column in force is never overwritten
+		line = perm(old[:k])
+		inForce = append(append([]string{}, line...), old[k:]...)
+	case "longer":
+		extras := []string{ex.x.pick("Whatever", "Extra Column", old[ex.x.intn(movable)])}
+		if ex.x.chance(1, 2) {
+			extras = append(extras, ex.x.pick("Unknown2", old[ex.x.intn(movable)]))
+		}
+		line = perm(append(append([]string{}, old[:movable]...), extras...))
+		line = append(line, old[movable:]...)
+		inForce = line
+	default:
+		line = append(perm(old[:movable]), old[movable:]...)
+		inForce = line
+	}
+	ex.count(section + "_format2_" + kind)
+	return
+}
+
+// the cells of a row laid out for the columns in force: the cell rendered for the column of that name, an arbitrary
+// comma-free cell under a name the first Format line did not have
+func (ex *ssaExtras) layout(cols, vals, inForce []string) []string {
+	m := map[string]string{}
+	for i, c := range cols {
+		m[c] = vals[i]
+	}
+	var out []string
+	for _, c := range inForce {
+		if v, ok := m[c]; ok {
+			out = append(out, v)
+		} else {
+			out = append(out, ex.x.pick("", "zz", "12", "&H00FF00FF", "not a number"))
+		}
+	}
+	return out
+}
+
+// renderSsaWith: as renderSsa; with ex != nil the extra lines above; the fourth result lists the comment lines of
+// the whole document in order (they all count as script-info comments, wherever they stand outside unknown sections)
+func renderSsaWith(r *rng, d *ssaDocGT, ex *ssaExtras) (string, map[string]bool, map[string]bool, []string) {
 	eol := r.pick("\n", "\r\n", "\r")
 	var L []string
+	var comments []string
+	comment := func(where, text string) {
+		L = append(L, ex.x.pick("; ", ";", ";  ")+text+ex.x.pick("", "", " "))
+		comments = append(comments, text)
+		ex.count(where + "_comment")
+	}
+	if ex != nil { // before the first section header
+		for k := ex.x.intn(4); k > 0 && ex.x.chance(1, 3); k-- {
+			switch ex.x.intn(3) {
+			case 0:
+				comment("pre", ex.x.pick("made by hand", "pre: amble", "0"))
+			case 1:
+				L = append(L, ex.x.pick("stray line before any section", "]not a header[", ":colon first"))
+				ex.count("pre_junk")
+			default:
+				L = append(L, ex.x.pick("Title: ignored before any section", "Format: Name, Fontname", "Style: x,y", "Dialogue: 0,0:00:00.00,0:00:01.00,,ignored", "PlayResX: not a number"))
+				ex.count("pre_keyvalue")
+			}
+		}
+	}
 	sec := func(s string) string {
 		switch r.intn(3) {
 		case 0:
@@ -261,7 +362,25 @@ func renderSsa(r *rng, d *ssaDocGT) (string, map[string]bool, map[string]bool) {
 	L = append(L, sec("[Script Info]"))
 	for _, c := range d.Comments {
 		L = append(L, "; "+c)
+		comments = append(comments, c)
 	}
+	unknownKey := func() {
+		if ex == nil || !ex.x.chance(1, 6) {
+			return
+		}
+		switch ex.x.intn(4) {
+		case 0:
+			L = append(L, ex.x.pick("Audio URI: http://host:8080/a.wav", "Video File: C:\\clips\\a: b.avi", "Last Style Storage: a:b:c", "Export Encoding : x:y"))
+			ex.count("unknown_key_colons")
+		case 1:
+			L = append(L, ex.x.pick("Video Zoom:", "Collisions2:", "Scroll Position :"))
+			ex.count("unknown_key_novalue")
+		default:
+			L = append(L, ex.x.pick("ScaledBorderAndShadow: yes", "YCbCr Matrix: TV.601", "Video Aspect Ratio: 0", "title: lower case is another key", "PlayResZ: 12", "Timer2: abc"))
+			ex.count("unknown_key")
+		}
+	}
+	unknownKey()
 	var keys []string
 	for k := range d.Info {
 		keys = append(keys, k)
@@ -283,10 +402,20 @@ func renderSsa(r *rng, d *ssaDocGT) (string, map[string]bool, map[string]bool) {
 		}
 		L = append(L, k+": "+v)
 		junk()
+		unknownKey()
 	}
 	L = append(L, "")
 	if r.chance(1, 3) {
 		L = append(L, "[Fonts]", "fontname: x.ttf", "M1234", "")
+		if ex != nil && ex.x.chance(1, 3) { // inside an unknown section a ';' line is not a comment
+			L = append(L[:len(L)-1], "; inside an unknown section", "")
+			ex.count("unknown_section_semicolon_line")
+		}
+	}
+	sectionComment := func(where string) {
+		if ex != nil && ex.x.chance(1, 8) {
+			comment(where, ex.x.pick("note", "a: b, c", "Style: not a row", "[not a header"))
+		}
 	}
 	styleCols := map[string]bool{}
 	if len(d.Styles) > 0 {
@@ -310,8 +439,23 @@ func renderSsa(r *rng, d *ssaDocGT) (string, map[string]bool, map[string]bool) {
 			j := r.intn(i + 1)
 			cols[i], cols[j] = cols[j], cols[i]
 		}
+		sectionComment("styles")
 		L = append(L, "Format: "+strings.Join(cols, r.pick(", ", ",", " , ")))
-		for _, st := range d.Styles {
+		inForce := cols
+		at := -1 // the second Format line stands before row number at (len(d.Styles): after the last row)
+		if ex != nil && ex.x.chance(1, 3) {
+			at = ex.x.intn(len(d.Styles) + 1)
+		}
+		second := func(i int) {
+			if i == at {
+				var line []string
+				line, inForce = ex.format2(inForce, false, "styles")
+				L = append(L, "Format: "+strings.Join(line, ex.x.pick(", ", ",", " ,  ")))
+			}
+		}
+		for i, st := range d.Styles {
+			second(i)
+			sectionComment("styles")
 			var vals []string
 			for _, c := range cols {
 				key := c
@@ -332,9 +476,15 @@ func renderSsa(r *rng, d *ssaDocGT) (string, map[string]bool, map[string]bool) {
 					}
 				}
 			}
+			if at >= 0 && i >= at {
+				vals = ex.layout(cols, vals, inForce)
+				ex.count("styles_row_after_format2")
+			}
 			L = append(L, "Style: "+strings.Join(vals, ","))
 			junk()
 		}
+		second(len(d.Styles))
+		sectionComment("styles")
 		L = append(L, "")
 	}
 	L = append(L, sec("[Events]"))
@@ -357,7 +507,20 @@ func renderSsa(r *rng, d *ssaDocGT) (string, map[string]bool, map[string]bool) {
 		ecols[i], ecols[j] = ecols[j], ecols[i]
 	}
 	ecols = append(ecols, "Text") // the text column is last: it takes the remaining commas
+	sectionComment("events")
 	L = append(L, "Format: "+strings.Join(ecols, ", "))
+	eInForce := ecols
+	eAt := -1
+	if ex != nil && ex.x.chance(1, 3) {
+		eAt = ex.x.intn(len(d.Events) + 1)
+	}
+	eSecond := func(i int) {
+		if i == eAt {
+			var line []string
+			line, eInForce = ex.format2(eInForce, true, "events")
+			L = append(L, "Format: "+strings.Join(line, ex.x.pick(", ", ",", " ,  ")))
+		}
+	}
 	nlMode := r.intn(4) // 0: \N everywhere, 1: \n everywhere, 2 and 3: chosen per line break
 	nl := func() string {
 		switch nlMode {
@@ -368,7 +531,9 @@ func renderSsa(r *rng, d *ssaDocGT) (string, map[string]bool, map[string]bool) {
 		}
 		return r.pick("\\N", "\\n")
 	}
-	for _, e := range d.Events {
+	for i, e := range d.Events {
+		eSecond(i)
+		sectionComment("events")
 		var vals []string
 		ip := func(p *int) string {
 			if ssaCells != nil {
@@ -417,16 +582,22 @@ func renderSsa(r *rng, d *ssaDocGT) (string, map[string]bool, map[string]bool) {
 				vals = append(vals, ssaEventText(e.Lines, nl))
 			}
 		}
+		if eAt >= 0 && i >= eAt {
+			vals = ex.layout(ecols, vals, eInForce)
+			ex.count("events_row_after_format2")
+		}
 		if r.chance(1, 5) {
 			L = append(L, r.pick("Comment", "Picture", "Command")+": "+strings.Join(vals, ","))
 		}
 		L = append(L, "Dialogue: "+strings.Join(vals, ","))
 	}
+	eSecond(len(d.Events))
+	sectionComment("events")
 	doc := strings.Join(L, eol) + eol
 	if r.chance(1, 3) {
 		doc = "\xef\xbb\xbf" + doc
 	}
-	return doc, styleCols, eventCols
+	return doc, styleCols, eventCols, comments
 }
 
 func attrKind(name string) byte {
@@ -1288,7 +1459,7 @@ func decodeSsa(doc []byte) (*ssaDocGT, error) {
 // ---- suite ----------------------------------------------------------------------------------------
 
 func suiteSsa(R *runner, r *rng) {
-	R.rule("ssa: ground-truth documents (script info subsets, comments, 0..3 styles over the 23 attributes, 0..5 dialogue events with all columns, text of 1..5 lines and 1..4 runs with override blocks, commas and colons in text, empty lines incl. the first line(s) of an event, override blocks back to back (runs without text), blanks at run boundaries next to a block) x renderings (column permutations and subsets in both Format lines, section-name case, v4 / v4+ / 'V4 Styles+', every cell spelling of the characterisation in coq/Proofs/SsaCells*.v counted as ssa.cell.* (times: hours below 10 / 10..99 / 100 and above, unpadded or padded to 2 or 3 digits, MM:SS and :MM:SS forms, fraction of 0..3 digits, unpadded minutes and seconds, white space around; colours: decimal with sign / leading zeros / negative / above 32 bits, &H with 8 digits in upper, lower and mixed case, short forms incl. 6 digits, plus sign, above 32 bits; booleans: -1, 1, other integers, 0 respelt, non-integers; integers: plus sign, leading zeros, -0, negative; numbers: sign, leading zeros, no integer digits, trailing dot, fraction of 1..3 digits and zeros beyond; timer: comma or dot), TertiaryColour alias, *Default, \\N and \\n mixed inside one event, EOL kinds, BOM, junk lines, unknown sections, Comment events); reader vs ground truth on the observable columns, and what was read written, read and written again (second write byte-equal to the first); writer output decoded by the independent Format-driven decoder and by the reader; read-then-write byte-equal to the first write; non-trivial = at least one event")
+	R.rule("ssa: ground-truth documents (script info subsets, comments, 0..3 styles over the 23 attributes, 0..5 dialogue events with all columns, text of 1..5 lines and 1..4 runs with override blocks, commas and colons in text, empty lines incl. the first line(s) of an event, override blocks back to back (runs without text), blanks at run boundaries next to a block) x renderings (column permutations and subsets in both Format lines, section-name case, v4 / v4+ / 'V4 Styles+', every cell spelling of the characterisation in coq/Proofs/SsaCells*.v counted as ssa.cell.* (times: hours below 10 / 10..99 / 100 and above, unpadded or padded to 2 or 3 digits, MM:SS and :MM:SS forms, fraction of 0..3 digits, unpadded minutes and seconds, white space around; colours: decimal with sign / leading zeros / negative / above 32 bits, &H with 8 digits in upper, lower and mixed case, short forms incl. 6 digits, plus sign, above 32 bits; booleans: -1, 1, other integers, 0 respelt, non-integers; integers: plus sign, leading zeros, -0, negative; numbers: sign, leading zeros, no integer digits, trailing dot, fraction of 1..3 digits and zeros beyond; timer: comma or dot); unknown script-info keys with and without value and with extra colons, comment lines before the first section header and inside the styles / events sections - all expected as script-info comments in document order -, unintelligible and key: value lines before the first header, a ';' line inside an unknown section, a second Format line inside the styles / events section - same columns permuted, shorter, longer with unknown or repeated names - with the rows after it laid out for the columns then in force, TertiaryColour alias, *Default, \\N and \\n mixed inside one event, EOL kinds, BOM, junk lines, unknown sections, Comment events); reader vs ground truth on the observable columns, and what was read written, read and written again (second write byte-equal to the first); writer output decoded by the independent Format-driven decoder and by the reader; read-then-write byte-equal to the first write; non-trivial = at least one event")
 	N := 800
 	if R.tier == "thorough" {
 		N = 16000
@@ -1298,7 +1469,9 @@ func suiteSsa(R *runner, r *rng) {
 	for c := 0; c < N; c++ {
 		d := randSsaDoc(r)
 		ssaVary(r, d)
-		doc, sc, ec := renderSsa(r, d)
+		doc, sc, ec, comments := renderSsaWith(r, d, newSsaExtras(R, c, 1))
+		want := *d
+		want.Comments = comments // every comment line of the document, in order
 		h := map[string]interface{}{"doc": doc}
 		o := &obs{Suite: "ssaread", Group: "ssa.read", NoModel: true, NT: len(d.Events) > 0, Input: "ssa read " + hashBytes([]byte(doc)), Human: h}
 		var s *astisub.Subtitles
@@ -1310,7 +1483,7 @@ func suiteSsa(R *runner, r *rng) {
 		case err != nil:
 			o.Oracle, o.Sig = "ReadFromSSA rejects a well-formed document: "+err.Error(), "ssa-read-reject"
 		default:
-			if m := ssaDocsEqual(ssaDocFromSubs(s), d, sc, ec); m != "" {
+			if m := ssaDocsEqual(ssaDocFromSubs(s), &want, sc, ec); m != "" {
 				o.Oracle, o.Sig = "reader: "+m, "ssa-read-value"
 				if strings.Contains(m, "attribute Bold") || strings.Contains(m, "attribute Italic") || strings.Contains(m, "attribute Strikeout") || strings.Contains(m, "attribute Underline") {
 					o.Sig = "ssa-read-boolean"
